@@ -2755,12 +2755,12 @@ class Parameters:
         triggers = {p:self_[p]._autotrigger_value
                     for p in trigger_params if p in param_names}
 
+        param_values = self_.values()
+        params = {name: param_values[name] for name in param_names}
         events = self_._events
         watchers = self_._state_watchers
         self_._events  = []
         self_._state_watchers = []
-        param_values = self_.values()
-        params = {name: param_values[name] for name in param_names}
         TRIGGER = self_._TRIGGER
         self_._TRIGGER = True
         try:
